@@ -14,6 +14,12 @@ def run_witnesses(run_, rule, root=None, only=None):
     root = root or facts.REPO
     src = os.path.join(VERIF, "harness", "witness")
     work = os.path.join(facts.CACHE, "witness")
+    with facts.locked("witness"):
+        out = _build_and_test(root, src, work)
+    return _judge(run_, rule, out, only)
+
+
+def _build_and_test(root, src, work):
     os.makedirs(os.path.join(work, "src"), exist_ok=True)
     toml = open(os.path.join(src, "Cargo.toml.in")).read().replace("@REPO@", root)
     open(os.path.join(work, "Cargo.toml"), "w").write(toml)
@@ -24,7 +30,10 @@ def run_witnesses(run_, rule, root=None, only=None):
     env = dict(os.environ, CARGO_TARGET_DIR=os.path.join(facts.CACHE, "tgt-witness"), CARGO_NET_OFFLINE="true")
     r = subprocess.run(["cargo", "+nightly", "test", "--doc", "--offline"], cwd=work, env=env,
                        stdout=subprocess.PIPE, stderr=subprocess.STDOUT, text=True)
-    out = r.stdout
+    return r.stdout
+
+
+def _judge(run_, rule, out, only):
     res = {}
     for m in re.finditer(r"^test src/lib\.rs - (\w+) \(line \d+\) - (compile fail|compile) \.\.\. (ok|FAILED)", out, re.M):
         name, kind, verdict = m.group(1), m.group(2), m.group(3)
